@@ -5,12 +5,20 @@ package server
 
 import (
 	"bytes"
+	"context"
 	"crypto/sha256"
 	"encoding"
 	"fmt"
 	"io"
+	"net"
 	"sync"
 	"testing"
+	"time"
+
+	"github.com/relab/gorums"
+	"google.golang.org/grpc"
+	"google.golang.org/grpc/credentials/insecure"
+	"google.golang.org/protobuf/types/known/emptypb"
 
 	"github.com/relab/hotstuff/core/eventloop"
 	"github.com/relab/hotstuff/core/logging"
@@ -180,4 +188,156 @@ func TestC06ClientIO(t *testing.T) {
 		}
 		return c
 	}, ioProp)
+}
+
+// ---- the same clause through the real RPC path: gorums client -> ClientIO.ExecCommand on 127.0.0.1 ------------------------
+
+type loopQSpec struct{}
+
+func (loopQSpec) ExecCommandQF(_ *clientpb.Command, replies map[uint32]*emptypb.Empty) (*emptypb.Empty, bool) {
+	if len(replies) < 1 {
+		return nil, false
+	}
+	return &emptypb.Empty{}, true
+}
+
+type rpcCase struct {
+	Waiting [][2]int // commands submitted by clients over the network (distinct)
+	Ops     []ioOp   // then exec / abort batches applied by the replica
+}
+
+func rpcProp(c rpcCase) common.Result {
+	lg := logging.NewWithDest(io.Discard, "c06rpc")
+	el := eventloop.New(lg, 64)
+	srv := NewClientIO(el, lg, clientpb.NewCommandCache(1))
+	lis, err := net.Listen("tcp", "127.0.0.1:0")
+	if err != nil {
+		common.Get("C06").Inconclusive("cannot listen on 127.0.0.1: " + err.Error())
+		return common.OK(false, "", "inconclusive")
+	}
+	srv.StartOnListener(lis)
+	defer srv.Stop()
+	mgr := clientpb.NewManager(gorums.WithGrpcDialOptions(grpc.WithTransportCredentials(insecure.NewCredentials())))
+	defer mgr.Close()
+	cfg, err := mgr.NewConfiguration(loopQSpec{}, gorums.WithNodeList([]string{lis.Addr().String()}))
+	if err != nil {
+		common.Get("C06").Inconclusive("cannot connect: " + err.Error())
+		return common.OK(false, "", "inconclusive")
+	}
+	ctx, cancel := context.WithTimeout(context.Background(), 20*time.Second)
+	defer cancel()
+	type call struct {
+		id      clientpb.MessageID
+		promise *clientpb.AsyncEmpty
+	}
+	var calls []call
+	seen := map[[2]int]bool{}
+	for _, p := range c.Waiting {
+		if seen[p] {
+			continue
+		}
+		seen[p] = true
+		cmd := mkCmd(p)
+		calls = append(calls, call{cmd.ID(), cfg.ExecCommand(ctx, cmd)})
+	}
+	// wait (time is only a guard) until the replica has registered every waiting client
+	registered := false
+	for i := 0; i < 4000; i++ {
+		srv.mut.Lock()
+		n := len(srv.awaitingCmds)
+		srv.mut.Unlock()
+		if n == len(calls) {
+			registered = true
+			break
+		}
+		time.Sleep(time.Millisecond)
+	}
+	if !registered {
+		common.Get("C06").Inconclusive("the RPCs did not all arrive within the wait guard")
+		return common.OK(false, "", "inconclusive")
+	}
+	applied := map[clientpb.MessageID]bool{}
+	touched := map[clientpb.MessageID]bool{}
+	for step, op := range c.Ops {
+		batch := &clientpb.Batch{}
+		for _, p := range op.Cmds {
+			batch.Commands = append(batch.Commands, mkCmd(p))
+			touched[mkCmd(p).ID()] = true
+		}
+		done := make(chan struct{})
+		go func() {
+			defer close(done)
+			switch op.K {
+			case "abort":
+				srv.Abort(batch)
+			case "exec":
+				pre, _ := srv.Hash().(encoding.BinaryMarshaler).MarshalBinary()
+				srv.Exec(batch)
+				now := srv.Hash().Sum(nil)
+				for mask := 0; mask < 1<<uint(len(batch.Commands)); mask++ {
+					h := sha256.New()
+					_ = h.(encoding.BinaryUnmarshaler).UnmarshalBinary(pre)
+					for i, cmd := range batch.Commands {
+						if mask&(1<<uint(i)) != 0 {
+							_, _ = h.Write(cmd.Data)
+						}
+					}
+					if bytes.Equal(h.Sum(nil), now) {
+						for i, cmd := range batch.Commands {
+							if mask&(1<<uint(i)) != 0 {
+								applied[cmd.ID()] = true
+							}
+						}
+						break
+					}
+				}
+			}
+		}()
+		select {
+		case <-done:
+		case <-time.After(15 * time.Second):
+			return common.Fail("rpc:replica-blocked", "step %d (%s): the replica did not return from handling the batch within 15 s (a second outcome sent to a client that is no longer waiting blocks it forever)", step, op.K)
+		}
+	}
+	successes, failures := 0, 0
+	for _, cl := range calls {
+		if !touched[cl.id] {
+			continue // nobody decided this command; the client keeps waiting
+		}
+		_, err := cl.promise.Get()
+		if err == nil {
+			successes++
+			if !applied[cl.id] {
+				return common.Fail("rpc:success-without-execution", "the client of (client %d, seq %d) received SUCCESS over the network although the replica never executed that command", cl.id.ClientID, cl.id.SequenceNumber)
+			}
+		} else {
+			failures++
+		}
+	}
+	cls := []string{}
+	if successes > 0 {
+		cls = append(cls, "rpc-success")
+	}
+	if failures > 0 {
+		cls = append(cls, "rpc-failure")
+	}
+	return common.OK(successes > 0 && failures > 0, "", cls...)
+}
+
+func TestC06ExecCommandRPC(t *testing.T) {
+	common.Check(t, "C06", "TestC06ExecCommandRPC", 64, 2000, func(rt *rapid.T) rpcCase {
+		var c rpcCase
+		pair := func() [2]int { return [2]int{rapid.IntRange(1, 3).Draw(rt, "client"), rapid.IntRange(1, 5).Draw(rt, "seq")} }
+		for i := rapid.IntRange(1, 6).Draw(rt, "w"); i > 0; i-- {
+			c.Waiting = append(c.Waiting, pair())
+		}
+		for i := rapid.IntRange(1, 8).Draw(rt, "n"); i > 0; i-- {
+			op := ioOp{K: rapid.SampledFrom([]string{"exec", "exec", "exec", "abort"}).Draw(rt, "k")}
+			for j := rapid.IntRange(1, 3).Draw(rt, "m"); j > 0; j-- {
+				op.Cmds = append(op.Cmds, pair())
+			}
+			c.Ops = append(c.Ops, op)
+		}
+		return c
+	}, rpcProp)
 }
